@@ -338,7 +338,8 @@ class Check:
         return path
 
     def write_evidence(self, results, violations, known_lines, status="ok"):
-        os.makedirs(os.path.join(VERIF, "evidence"), exist_ok=True)
+        evdir = os.environ.get("VERIF_EVIDENCE_DIR") or os.path.join(VERIF, "evidence")     # scratch runs (mutants) must not clobber the evidence
+        os.makedirs(evdir, exist_ok=True)
         # obligations matched to a recorded finding are reported separately: they are not claimed as proved and not counted
         kf = [r for r in results if r.meta.get("known_finding")]
         # signature obligations only characterise recorded findings ("the code does exactly the known wrong thing"): not claims
@@ -394,7 +395,7 @@ class Check:
             "coverage": cov, "assumptions": sorted(set(self.assumptions + self.trusted)),
             "wall_s": round(time.time() - self.t0, 2), "violations": len(violations),
         }
-        with open(os.path.join(VERIF, "evidence", f"{self.pid}.json"), "w") as f:
+        with open(os.path.join(evdir, f"{self.pid}.json"), "w") as f:
             json.dump(ev, f, indent=1, default=str)
 
 
